@@ -268,6 +268,35 @@ def check(run):
             lines.append(f'pip.in {rat(ox + q[0] * sc)} {rat(oy + q[1] * sc)} poly {flat(ring)}')
     run.run_cases('scaled-and-translated', lines, impl, spec, tag=classify)
 
+    # 3d. continent- and globe-sized shapes: rings whose extent exceeds 180 degrees of longitude (no single edge does, so
+    #     nothing wraps) or reaches the poles; plane geometry does not change with size, and nothing in the membership
+    #     path may read a wide extent as "crosses the antimeridian" (seeded change C01-q2 swapped the bounds of any polygon
+    #     wider than 180 degrees)
+    lines = []
+    for _ in range(run.scale(12, 120)):
+        x0 = F(rng.choice([-170, -150, -120, -100]))
+        x1 = F(rng.choice([100, 120, 150, 170]))
+        y0 = F(rng.choice([-80, -60, -30, -10]))
+        y1 = F(rng.choice([10, 30, 60, 85]))
+        nx = rng.choice([3, 4, 5])
+        xs_ = [x0 + (x1 - x0) * F(i, nx) for i in range(nx + 1)]
+        ring = [(x, y0) for x in xs_] + [(x, y1) for x in reversed(xs_)]
+        if rng.random() < 0.5:      # a notch from the top edge, so the ring is not a plain rectangle
+            m = len(xs_) // 2
+            ring = ring[:nx + 1] + [(x, y1) for x in reversed(xs_[m + 1:])] + [(xs_[m], (y0 + y1) / 2)] + \
+                [(x, y1) for x in reversed(xs_[:m])]
+        holes = []
+        if rng.random() < 0.5:
+            hx, hy = (x0 + x1) / 2 + 20, y0 + (y1 - y0) / 8
+            holes.append([(hx, hy), (hx + 30, hy), (hx + 30, hy + (y1 - y0) / 8), (hx, hy + (y1 - y0) / 8)])
+        var = rng.choice(variants(ring, rng, True))
+        txt = f'poly {flat(var)}' + ''.join(' h ' + flat(h) for h in holes)
+        qs = [(F(qx), F(qy)) for qx in (-175, x0, x0 + 1, -45, 0, 30, (x0 + x1) / 2 + 25, x1 - 1, x1, 175)
+              for qy in (y0 - 1, y0, y0 + 1, y0 + (y1 - y0) * F(3, 16), (y0 + y1) / 2, y1 - 1, y1, min(y1 + 2, 90))]
+        for q in rng.sample(qs, run.scale(24, 60)):
+            lines.append(f'pip.in {rat(q[0])} {rat(q[1])} {txt}')
+    run.run_cases('globe-sized-rings', lines, impl, spec, tag=classify)
+
     # 4. random: star-shaped and orthogonal rings up to 12 vertices on a 1/8 grid, queries snapped to vertex
     #    latitudes / longitudes with probability 1/2
     lines = []
